@@ -448,6 +448,10 @@ pub fn run_property(prop: &str, level_text: &str, subs: &[SubCheck], tier: Tier,
     let mut known_hits: BTreeMap<String, usize> = BTreeMap::new();
     let mut seen_sigs: HashSet<String> = HashSet::new();
     let _ = std::fs::create_dir_all(format!("{}/replays", out_dir()));
+    for r in reports.iter_mut() {
+        // deterministic order of the reported failures (workers finish in any order)
+        r.failures.sort_by(|a, b| (a.0.signature.as_str(), a.0.msg.as_str()).cmp(&(b.0.signature.as_str(), b.0.msg.as_str())));
+    }
     for r in &reports {
         for (fl, desc) in &r.failures {
             let kf = known
